@@ -8,6 +8,7 @@ import (
 	"github.com/go-text/typesetting/font"
 	ot "github.com/go-text/typesetting/font/opentype"
 	"github.com/go-text/typesetting/font/opentype/tables"
+	"github.com/go-text/typesetting/language"
 )
 
 // ---- C18: the cut law at the level of ONE lookup application ----
@@ -1052,5 +1053,46 @@ func VfH_C01_markfilter() {
 	var accel otLayoutLookupAccelerator
 	accel.init(lookupGPOS(ft.GPOS.Lookups[0]))
 	c.applyString(proxyGPOS, &accel)
+	vfReach("end")
+}
+
+// H-C01-layout-indices: the whole Buffer.Shape on a loadable font whose script / feature lists name a feature
+// or a lookup the font does not have (indexes 0, 1 or 7 with one feature and one lookup): shaping is total.
+func VfH_C01_layout_indices() {
+	idx := [...]uint16{0, 1, 7}
+	featIdx := idx[vfChoice("featureIndex", 3)]
+	lookupIdx := idx[vfChoice("lookupIndex", 3)]
+	g := []uint16{1, 0, 10, 30, 44}
+	g = append(g, 1, 0x4446, 0x4C54, 8, 4, 0, 0, 0xFFFF, 1, featIdx) // script list: DFLT, default language system
+	g = append(g, 1, 0x6C69, 0x6761, 8, 0, 1, lookupIdx)             // feature list: 'liga'
+	g = append(g, 1, 4, 1, 0, 1, 8, 1, 6, 0, 1, 1, 0)                // lookup list: one single substitution
+	cmap := []uint16{0, 1, 3, 1, 0, 12, 4, 24, 0, 2, 2, 0, 0, 0xFFFF, 0, 0xFFFF, 1, 0}
+	head := make([]byte, 54)
+	head[18], head[19] = 0x03, 0xE8
+	tag := "GSUB"
+	if vfChoice("table", 2) == 1 {
+		tag = "GPOS"
+		g[len(g)-6], g[len(g)-5], g[len(g)-4] = 1, 8, 0 // single positioning format 1, coverage at 8, no value
+		g = append(g[:len(g)-3], 1, 1, 0)
+	}
+	file := ot.WriteTTF([]ot.Table{
+		{Tag: ot.MustNewTag(tag), Content: vfWords(g...)},
+		{Tag: ot.MustNewTag("cmap"), Content: vfWords(cmap...)},
+		{Tag: ot.MustNewTag("head"), Content: head},
+		{Tag: ot.MustNewTag("maxp"), Content: []byte{0, 0, 0x50, 0, 0, 8}},
+	})
+	ld, err := ot.NewLoader(bytes.NewReader(file))
+	if err != nil {
+		panic("harness: font file does not load")
+	}
+	ft, err := font.NewFont(ld)
+	if err != nil {
+		panic("harness: minimal font rejected")
+	}
+	buf := NewBuffer()
+	buf.AddRunes([]rune("AB"), 0, -1)
+	buf.Props = SegmentProperties{Direction: LeftToRight, Script: language.Latin}
+	buf.Shape(NewFont(font.NewFace(ft)), nil)
+	vfCover("shaped", len(buf.Info) == 2)
 	vfReach("end")
 }
